@@ -591,6 +591,10 @@ func RunCase(c Case) (res stats.Result) {
 				fail("%s left the translator although it was never accepted", describe(i))
 				break
 			}
+			if st[i].discarded {
+				fail("%s was discarded by a flush, yet it leaves the translator for the memory afterwards", describe(i))
+				break
+			}
 			if st[i].fwd != nil {
 				fail("a second request with physical address 0x%x left the translator; it is the translation of %s, which had already left", f.GetAddress(), describe(i))
 				break
